@@ -116,6 +116,17 @@ func devirtualize(c *Ctx) {
 					c.Devirtualized++
 					continue
 				}
+				if mc, isMC := cc.Value.(*ssa.MakeClosure); isMC {
+					// a method value called in the function that took it (`f := x.m; f(a)`): x.m(a)
+					if w, _ := mc.Fn.(*ssa.Function); w != nil && strings.HasPrefix(w.Synthetic, "bound method wrapper") && len(mc.Bindings) == 1 {
+						if target := boundTarget(w); target != nil {
+							cc.Args = append([]ssa.Value{mc.Bindings[0]}, cc.Args...)
+							cc.Value = target
+							c.Devirtualized++
+						}
+					}
+					continue
+				}
 				ld, ok := cc.Value.(*ssa.UnOp)
 				if !ok {
 					continue
@@ -135,17 +146,8 @@ func devirtualize(c *Ctx) {
 					if w == nil || !strings.HasPrefix(w.Synthetic, "bound method wrapper") || len(v.Bindings) != 1 {
 						continue
 					}
-					var target *ssa.Function
-					for _, wb := range w.Blocks {
-						for _, wi := range wb.Instrs {
-							if wc, ok := wi.(ssa.CallInstruction); ok {
-								if t := wc.Common().StaticCallee(); t != nil {
-									target = t
-								}
-							}
-						}
-					}
-					if target == nil || target.Signature.Recv() == nil {
+					target := boundTarget(w)
+					if target == nil {
 						continue
 					}
 					// the receiver, as far as it can be named at the call site
@@ -172,4 +174,22 @@ func storeBaseOf(v *ssa.MakeClosure, f *types.Var) ssa.Value {
 		}
 	}
 	return nil
+}
+
+// boundTarget: the method a bound-method wrapper calls.
+func boundTarget(w *ssa.Function) *ssa.Function {
+	var target *ssa.Function
+	for _, wb := range w.Blocks {
+		for _, wi := range wb.Instrs {
+			if wc, ok := wi.(ssa.CallInstruction); ok {
+				if t := wc.Common().StaticCallee(); t != nil {
+					target = t
+				}
+			}
+		}
+	}
+	if target == nil || target.Signature.Recv() == nil {
+		return nil
+	}
+	return target
 }
